@@ -35,12 +35,36 @@ def r1_full_scan_strict_improvement(cx):
         src = iter_source(lk, li)
         if src is not None and place_is_field(src, "ClaimTable", "claims"):
             scan = li
-    cx.check("scan-found", scan is not None, site_of(lk), "lookup scans the claim list")
     if scan is None:
-        # accepted alternative idiom: filter(matches).max_by_key(prefix_len)
-        mb = [ci for ci, ct in lk.calls() if callee_is(ct, "iter::Iterator::max_by_key")]
-        cx.check("alternative-idiom", bool(mb), site_of(lk), "lookup uses filter(..).max_by_key(prefix_len)")
+        # accepted alternative idiom: claims.iter().filter(|e| e.claim.matches(addr)).max_by_key(|e| e.claim.prefix_len)
+        mb = [(ci, ct) for ci, ct in lk.calls() if callee_is(ct, "iter::Iterator::max_by_key", "iter::Iterator::max_by")]
+        fl = [(ci, ct) for ci, ct in lk.calls() if callee_is(ct, "iter::Iterator::filter")]
+        ok = len(mb) == 1 and len(fl) == 1
+        if ok:
+            src = deep_root(lk, fl[0][1]["args"][0])
+            # the filtered iterator is built from self.claims
+            cur = fl[0][1]["args"][0]
+            from_claims = False
+            for _ in range(6):
+                o = origin(lk, cur)
+                if o[0] == "call" and o[2]["args"]:
+                    r = deep_root(lk, o[2]["args"][0])
+                    if r is not None and place_is_field(r, "ClaimTable", "claims"):
+                        from_claims = True
+                        break
+                    cur = o[2]["args"][0]
+                else:
+                    break
+            closures = prog.closures_of(lk)
+            f_ok = any(any(callee_is(t2, "types::Range::matches") for _b, t2 in cb.calls()) for cb in closures)
+            k_ok = any(any(s2["k"] == "assign" and s2["rv"]["k"] == "use" and _is_prefix_len(_value_place(cb, s2["rv"]["op"])) and s2["place"]["l"] == 0 for _b, _s, s2 in cb.stmts()) for cb in closures)
+            ok = from_claims and f_ok and k_ok
+        cx.check("alternative-idiom", ok, site_of(lk),
+                 "lookup selects claims.iter().filter(matches(addr)).max_by_key(prefix_len): every claim is considered and the most specific match wins")
+        gets = calls_on_field(prog, ("collections::HashMap::get",), "ClaimTable", "cache", bodies=[lk])
+        cx.exact("cache-first", len(gets), 1, "cache lookups in ClaimTable::lookup")
         return
+    cx.check("scan-found", True, site_of(lk), "lookup scans the claim list")
     cx.check("full-scan", not scan.other_exits and bool(scan.exhaust_exits), site_of(lk, scan.header), "the scan visits every claim (exhaustion exit only)")
     # candidate updates inside the loop: stores to locals that are live after the loop
     matches = [(ci, ct) for ci, ct in lk.calls() if ci in scan.blocks and callee_is(ct, "types::Range::matches")]
